@@ -360,7 +360,9 @@ def check_tree(st, ast):
   for i, (e, g) in enumerate(zip(exp, got)):
     what = _diff(e, g)
     if what:
-      st.violation(_tree_sig(ast, steps[i], what, g),
+      sig = _tree_sig(ast, steps[i], what, g)
+      st.count('cases[' + sig + ']')
+      st.violation(sig,
                    {'tree': ast, 'steps': steps[:i + 1], 'step': i,
                     'expected': e, 'observed': g},
                    replay={'part': 'tree', 'ast': ast})
@@ -939,7 +941,8 @@ def run(ctx):
       f'{depth} ({depth + 1} for LruCache), deduplicated by canonical '
       'observable state): LruCache maxsize 1..3 x 17 operations (getitem/get/set/insert x 4 keys, clear);'
       ' lazy layer cache bounded to 2..3 x {make(e0..e3), clear_cache, '
-      'make(uncached twin)} x 5 expression families x {direct, pickled}; '
+      'make(uncached twin)} x 5 expression families x {direct, pickled}'
+      + ('' if quick else ' and bounded to 1..2 through gzip pickles') + '; '
       'handle registry bounded to 1..2 x {new, deref, use x 3 slots, '
       'clear_object} x {direct, pickled}; bound 128: fill, touch every '
       'ordered subset of the oldest 3, overflow by 1..3, probe, on LruCache /'
@@ -967,23 +970,31 @@ def run(ctx):
     ctx.pmap(_tree_unit,
              ctx.shuffled((spec, r, n_units) for r in range(n_units)))
     ctx.notes['trees'] = ctx.evaluations - 3
-  if on('lru'):
-    ctx.pmap(_lru_unit, [(m, depth + 1) for m in (1, 2, 3)])
   lazy_units = [(name, m, mode, depth) for name in sorted(families())
                 for m in (2, 3) for mode in ('direct', 'pickled')]
   if not quick:
     lazy_units += [(name, m, 'gzip', depth) for name in sorted(families())
                    for m in (1, 2)]
-  obj_units = [(m, mode, depth) for m in (1, 2) for mode in ('direct', 'pickled')]
+  hs = list(_bound_histories())
+  units = []
   if on('lazy'):
-    ctx.pmap(_lazy_unit, ctx.shuffled(lazy_units))
+    units += [('lazy', u) for u in lazy_units]
+  if on('lru'):
+    units += [('lru', (m, depth + 1)) for m in (1, 2, 3)]
   if on('obj'):
-    ctx.pmap(_obj_unit, ctx.shuffled(obj_units))
+    units += [('obj', (m, mode, depth)) for m in (1, 2)
+              for mode in ('direct', 'pickled')]
   if on('bound'):
-    hs = list(_bound_histories())
-    ctx.pmap(_bound_unit, [(layer, chunk) for layer in
-                           ('LruCache', 'lazy', 'lazy-pickled')
-                           for chunk in enums.chunks(hs, 5)])
+    units += [('bound', (layer, chunk)) for layer in
+              ('LruCache', 'lazy', 'lazy-pickled')
+              for chunk in enums.chunks(hs, 3)]
+  ctx.pmap(_part2_unit, ctx.shuffled(units))
+
+
+def _part2_unit(item):
+  kind, args = item
+  return {'lazy': _lazy_unit, 'lru': _lru_unit, 'obj': _obj_unit,
+          'bound': _bound_unit}[kind](args)
 
 
 def replay(ctx, data):
